@@ -466,9 +466,46 @@ func ruleC17(c *Ctx) {
 						}
 					}
 				}
+				// a test of the shifted window elsewhere in the loop (in its body, feeding a flag the loop goes
+				// round on) is a re-test all the same; only its absence is evidence
+				testedElsewhere := false
+				eachInstr(cb, func(i ssa.Instruction) {
+					sl, ok := i.(*ssa.Slice)
+					if !ok || tb.T(sl.X).String() != deb {
+						return
+					}
+					seenPhi := map[*ssa.Phi]bool{}
+					var fed func(v ssa.Value) bool
+					fed = func(v ssa.Value) bool {
+						if v == ssa.Value(sh) {
+							return true
+						}
+						if ph, ok := v.(*ssa.Phi); ok && !seenPhi[ph] {
+							seenPhi[ph] = true
+							for _, e := range ph.Edges {
+								if fed(e) {
+									return true
+								}
+							}
+						}
+						return false
+					}
+					if sl.Low != nil && fed(sl.Low) && sl.Referrers() != nil {
+						for _, r := range *sl.Referrers() {
+							if _, isCall := r.(ssa.CallInstruction); isCall {
+								testedElsewhere = true
+							}
+							if _, isPhi := r.(*ssa.Phi); isPhi {
+								testedElsewhere = true
+							}
+						}
+					}
+				})
 				switch {
 				case usesWindow:
 					stR = holds
+				case !testsWindow && testedElsewhere:
+					why = "the loop around the shift does not test the window in its condition; the shifted window is tested in its body"
 				case !testsWindow:
 					stR, why = broken, "the window is moved once and accepted without being tested again: the loop around this shift ("+c.W.pos(hdr.Instrs[0].Pos())+") does not test the window, so a second occurrence of the banned sequence (or a filter rejection) in the shifted window goes unnoticed"
 				default:
